@@ -21,12 +21,21 @@ use vcore::amounts::pick;
 use vcore::{CaseCtx, Family, PropSpec, Tier, Violation};
 
 pub const N_USERS: usize = 4;
-pub const N_NATIVE: usize = 3;
+pub const N_NATIVE: usize = 4;
 pub const N_CW20: usize = 3;
 pub const N_TOK: usize = N_NATIVE + N_CW20;
 /// the third denom contains a slash and extends the first one (an LP-share style denom): everything after
 /// the second slash of a voucher denom is the base denom
-pub const NATIVE: [&str; N_NATIVE] = ["uatom", "ujuno", "uatom/lp"];
+/// The fourth native denom is built per case: `factory/verif/cw20:<address of cw20 token 0>` - a bank coin
+/// whose name merely *contains* the cw20 marker (it does not start with it, so the section 3 assumption
+/// is untouched): it is a native coin through and through.
+pub const NATIVE: [&str; 3] = ["uatom", "ujuno", "uatom/lp"];
+
+fn native_denoms(cw20: &[Addr]) -> Vec<String> {
+    let mut v: Vec<String> = NATIVE.iter().map(|s| s.to_string()).collect();
+    v.push(format!("factory/verif/cw20:{}", cw20[0]));
+    v
+}
 pub const DEFAULT_TIMEOUT: u64 = 1000;
 
 // ------------------------------------------------------------------ case types
@@ -360,6 +369,7 @@ struct World {
     ics20: Addr,
     code: u64,
     cw20: Vec<Addr>,
+    natives: Vec<String>,
     n_ch: usize,
 }
 
@@ -380,14 +390,14 @@ impl World {
     }
     fn local_denom(&self, tok: usize) -> String {
         if tok < N_NATIVE {
-            NATIVE[tok].to_string()
+            self.natives[tok].clone()
         } else {
             format!("cw20:{}", self.cw20[tok - N_NATIVE])
         }
     }
     fn balance(&self, who: &Addr, tok: usize) -> Result<u128, String> {
         if tok < N_NATIVE {
-            Ok(self.app.wrap().query_balance(who.to_string(), NATIVE[tok]).map_err(|e| e.to_string())?.amount.u128())
+            Ok(self.app.wrap().query_balance(who.to_string(), self.natives[tok].clone()).map_err(|e| e.to_string())?.amount.u128())
         } else {
             Ok(try_query::<BalanceResponse, _>(&self.app, &self.cw20[tok - N_NATIVE], &Cw20QueryMsg::Balance { address: who.to_string() })?.balance.u128())
         }
@@ -477,11 +487,6 @@ pub fn run_case(prop: &str, case: &Case, ctx: &mut CaseCtx) -> Result<(), Violat
     let relayer = app.api().addr_make("relayer");
     let faucet = app.api().addr_make("faucet");
     let rich: u128 = 1u128 << 66;
-    for u in &users {
-        for d in NATIVE {
-            app.sudo(SudoMsg::Bank(BankSudo::Mint { to_address: u.to_string(), amount: coins(rich, d) })).expect("mint");
-        }
-    }
     let ccode = app.store_code(flaky_cw20_contract());
     let mut cw20 = vec![];
     for i in 0..N_CW20 {
@@ -494,6 +499,12 @@ pub fn run_case(prop: &str, case: &Case, ctx: &mut CaseCtx) -> Result<(), Violat
             marketing: None,
         };
         cw20.push(app.instantiate_contract(ccode, faucet.clone(), &msg, &[], format!("tok{i}"), None).expect("cw20"));
+    }
+    let natives = native_denoms(&cw20);
+    for u in &users {
+        for d in &natives {
+            app.sudo(SudoMsg::Bank(BankSudo::Mint { to_address: u.to_string(), amount: coins(rich, d.clone()) })).expect("mint");
+        }
     }
     let code = app.store_code(ics20_contract());
     let mut allow_init: BTreeMap<usize, Option<u64>> = BTreeMap::new();
@@ -516,7 +527,7 @@ pub fn run_case(prop: &str, case: &Case, ctx: &mut CaseCtx) -> Result<(), Violat
     };
     let ics20 = app.instantiate_contract(code, faucet.clone(), &init, &[], "ics20", Some(wasm_admin.to_string())).expect("ics20 instantiate");
     let n_ch = case.channels.clamp(1, 3) as usize;
-    let mut w = World { app, users, govs, wasm_admin, relayer, ics20, code, cw20, n_ch };
+    let mut w = World { app, users, govs, wasm_admin, relayer, ics20, code, cw20, natives, n_ch };
     for i in 0..n_ch {
         let channel = IbcChannel::new(IbcEndpoint { port_id: w.port(), channel_id: chan_id(i) }, IbcEndpoint { port_id: REMOTE_PORT.into(), channel_id: remote_chan_id(i) }, IbcOrder::Unordered, "ics20-1", "connection-0");
         try_sudo(&mut w.app, &w.ics20.clone(), &Shim::ChannelConnect { msg: IbcChannelConnectMsg::new_ack(channel, "ics20-1") }).expect("channel connect");
@@ -551,7 +562,7 @@ pub fn run_case(prop: &str, case: &Case, ctx: &mut CaseCtx) -> Result<(), Violat
             // the old contract holds everything it was sent
             if total > 0 {
                 if *tok < N_NATIVE {
-                    w.app.sudo(SudoMsg::Bank(BankSudo::Mint { to_address: c.to_string(), amount: coins(total, NATIVE[*tok]) })).expect("mint");
+                    w.app.sudo(SudoMsg::Bank(BankSudo::Mint { to_address: c.to_string(), amount: coins(total, w.natives[*tok].clone()) })).expect("mint");
                 } else {
                     w.app.execute_contract(faucet.clone(), w.cw20[*tok - N_NATIVE].clone(), &Cw20ExecuteMsg::Transfer { recipient: c.to_string(), amount: Uint128::new(total) }, &[]).expect("fund");
                 }
@@ -672,7 +683,7 @@ pub fn run_case(prop: &str, case: &Case, ctx: &mut CaseCtx) -> Result<(), Violat
                 let remote = format!("remote-user-{}", step_no % 3);
                 let tmsg = TransferMsg { channel: if ch_exists { chan_id(chx) } else { "channel-77".into() }, remote_address: remote.clone(), timeout: timeout.map(|t| t as u64), memo: memo.clone() };
                 let r = if is_native {
-                    try_exec(&mut w.app, &w.users[by].clone(), &w.ics20.clone(), &ExecuteMsg::Transfer(tmsg), &[Coin::new(amount, NATIVE[tok])])
+                    try_exec(&mut w.app, &w.users[by].clone(), &w.ics20.clone(), &ExecuteMsg::Transfer(tmsg), &[Coin::new(amount, w.natives[tok].clone())])
                 } else {
                     try_exec(&mut w.app, &w.users[by].clone(), &w.cw20[tok - N_NATIVE].clone(), &Cw20ExecuteMsg::Send { contract: w.ics20.to_string(), amount: Uint128::new(amount), msg: to_json_binary(&tmsg).unwrap() }, &[])
                 };
@@ -809,9 +820,14 @@ pub fn run_case(prop: &str, case: &Case, ctx: &mut CaseCtx) -> Result<(), Violat
                     let success = if pkts[i].state == PState::Delivered { true } else { want_ok && !is_timeout };
                     let p = pkts[i].clone();
                     let inject = refund_fails && !success;
+                    // a cw20 refund fails either for good, or (odd amounts) only at the first attempt - what a
+                    // sub-call that ran out of its gas limit looks like
+                    let one_shot = inject && p.tok >= N_NATIVE && p.amount % 2 == 1;
                     if inject {
                         if p.tok < N_NATIVE {
                             set_blocked(&p.sender, true);
+                        } else if one_shot {
+                            set_fail_next(1);
                         } else {
                             let _ = try_sudo(&mut w.app, &w.cw20[p.tok - N_NATIVE].clone(), &FlakyCtl::Set { on: true });
                         }
@@ -826,6 +842,8 @@ pub fn run_case(prop: &str, case: &Case, ctx: &mut CaseCtx) -> Result<(), Violat
                     if inject {
                         if p.tok < N_NATIVE {
                             set_blocked(&p.sender, false);
+                        } else if one_shot {
+                            set_fail_next(0);
                         } else {
                             let _ = try_sudo(&mut w.app, &w.cw20[p.tok - N_NATIVE].clone(), &FlakyCtl::Set { on: false });
                         }
